@@ -113,11 +113,9 @@ impl LuaDeclarationTree {
                     false
                 }
                 LuaScopeKind::Repeat => {
-                    if let Some(ScopeOrDeclId::Scope(child_id)) = scope.get_children().first() {
-                        if let Some(child) = self.get_scope(child_id) {
-                            self.visit_visible_decls(child, position, true, f);
-                            return;
-                        }
+                    if let Some(body) = self.get_repeat_body(scope) {
+                        self.visit_visible_decls(body, position, true, f);
+                        return;
                     }
                     false
                 }
@@ -144,11 +142,9 @@ impl LuaDeclarationTree {
                 return;
             }
             if scope.get_kind() == LuaScopeKind::Repeat {
-                if let Some(ScopeOrDeclId::Scope(child_id)) = scope.get_children().first() {
-                    if let Some(body) = self.get_scope(child_id) {
-                        if self.search_scope_children(body, position, f) {
-                            return;
-                        }
+                if let Some(body) = self.get_repeat_body(scope) {
+                    if self.search_scope_children(body, position, f) {
+                        return;
                     }
                 }
             }
@@ -168,6 +164,18 @@ impl LuaDeclarationTree {
                 self.visit_visible_decls(parent, position, false, f);
             }
         }
+    }
+
+    /// The body block of a `repeat` scope. An empty body has no block; the first child scope is
+    /// then a closure of the `until` condition, whose parameters must not leak into the condition:
+    /// `repeat until f(function(x) end, x)`.
+    fn get_repeat_body(&self, scope: &LuaScope) -> Option<&LuaScope> {
+        if let Some(ScopeOrDeclId::Scope(child_id)) = scope.get_children().first() {
+            return self
+                .get_scope(child_id)
+                .filter(|child| child.get_kind() == LuaScopeKind::Normal);
+        }
+        None
     }
 
     /// Whether `position` lies in the block of a `for` statement's scope (its other child
